@@ -148,7 +148,7 @@ def oracle(seed, tier):
             viol.append({"what": "shortcuts on: %s ; shortcuts off: %s" % (a[:120], b[:120]), "world": path, "world_json": w, "cmd": lines[i]})
         elif len(samples) < 3 and pb[0] == "ok" and pb[1][0] != -1.0:
             samples.append({"world": worlds[m[1]][0], "cmd": lines[i], "answer": a[:120]})
-    return {"violations": viol[:20], "summary": {"cases": cases, "violations": len(viol), "nontrivial": nontriv}, "samples": samples}
+    return {"violations": trim_violations(viol, 20), "summary": {"cases": cases, "violations": len(viol), "nontrivial": nontriv}, "samples": samples}
 
 
 def replay(rp):
